@@ -301,6 +301,9 @@ fn tag_strategy(max_cost: i64, internal: i64) -> BoxedStrategy<u32> {
     let room = (max_cost - internal).clamp(1, 1 << 20) as u32;
     prop_oneof![
         8 => 0u32..=9,
+        // tag 0 with cost 0 is a Coster value of zero: an entry whose whole charge is zero when the
+        // internal overhead is ignored
+        2 => Just(0u32),
         1 => Just(room),
         1 => Just(room + 1),
     ]
